@@ -183,9 +183,9 @@ def config(rs, run, tier):
 
 
 def margin_comment_hazard(sheet):
-    """a margin box whose declaration block holds a comment (known finding: the margin rule parser drops it)"""
+    """a margin box whose declaration block holds nothing but comments (known finding, pinned by the suite: it serialises as '')"""
     for r in flat(sheet):
-        if r.typeString == "MARGIN_RULE" and "/*" in (lib.call(lambda: r.style.cssText)[1] or ""):
+        if r.typeString == "MARGIN_RULE" and r.style.length == 0 and "/*" in (lib.call(lambda: r.style.cssText)[1] or ""):
             return True
     return False
 
@@ -302,14 +302,14 @@ class World:
             a = (p2[0], a[1], tuple(x for x in a[2] if x[0] != "CHARSET_RULE"))
             p2 = (p2[0], p2[1], tuple(x for x in p2[2] if x[0] != "CHARSET_RULE"))
         if a != p2 and margin_comment_hazard(s):
-            self.soft.append({"inv": "restart_lossless", "sig": "restart:comment-in-margin-box-lost", "detail": f"a comment inside the declaration block of a margin rule does not come back: {b[:300]!r}"})
+            self.soft.append({"inv": "restart_lossless", "sig": "restart:comment-only-margin-box-dropped", "detail": f"a comment inside the declaration block of a margin rule does not come back: {b[:300]!r}"})
             return "known"
         if a != p2:
             where, x, y = _locate(a, p2)
             raise Viol("restart_lossless", f"restart:{where}", f"{where}: live {x!r} comes back as {y!r}; serialisation {b[:400]!r}")
         k, b2 = lib.call(lambda: s2.cssText)
         if k == "ok" and b2 != b and margin_comment_hazard(s):
-            self.soft.append({"inv": "restart_lossless", "sig": "restart:comment-in-margin-box-lost", "detail": f"{b[:300]!r}"})
+            self.soft.append({"inv": "restart_lossless", "sig": "restart:comment-only-margin-box-dropped", "detail": f"{b[:300]!r}"})
             return "known"
         if k != "ok" or (b2 != b and via != "net"):
             raise Viol("serialisation_fixpoint", "restart:bytes-differ", f"{b!r} reparsed serialises as {b2!r}")
@@ -346,7 +346,7 @@ class World:
                 if _strip_s(P.p_rule(obj)[1:]) != _strip_s(P.p_rule(r)[1:]):
                     raise Viol("node_restart_lossless", "CSSStyleRule.cssText:projection", f"{text!r}: {P.p_rule(r)!r} -> {P.p_rule(obj)!r}")
             elif t in ("PAGE_RULE", "MEDIA_RULE") and any(m.typeString == "MARGIN_RULE" and "/*" in (lib.call(lambda: m.style.cssText)[1] or "") for m in flat(r)):
-                self.soft.append({"inv": "restart_lossless", "sig": "restart:comment-in-margin-box-lost", "detail": f"node restart of {text[:200]!r}"})
+                self.soft.append({"inv": "restart_lossless", "sig": "restart:comment-only-margin-box-dropped", "detail": f"node restart of {text[:200]!r}"})
                 return "known"
             elif t in ("PAGE_RULE", "FONT_FACE_RULE", "COMMENT", "UNKNOWN_RULE", "NAMESPACE_RULE", "CHARSET_RULE"):
                 obj = roundtrip(text, lambda x: _with(cls(), "cssText", x), lambda o: o.cssText, None, f"{cls.__name__}.cssText")
